@@ -339,3 +339,57 @@ func ZZ_C07_FragmentIsolation() {
 	<-done
 	verifCover("isolated")
 }
+
+// A session's socket fails (or the sweeper removes the session) while a
+// datagram for that session is being forwarded - no quiescence in between, one
+// pre-emption, every wake-up order. Whatever happened to the racing datagram,
+// a LATER datagram with the same ID is not lost to the dead session: it leaves
+// through an open socket of its session (a fresh one if the old one is gone),
+// and a reply on that socket comes back tagged with the session.
+//
+//verif:harness kind=api replay=native+sched unwind=400 preempt=1 sched=all atomics=sched bound=one-session,datagram-racing-a-socket-error,atomic-operations-are-scheduling-points,then-1..2-datagrams+reply,one-preemption
+func ZZ_C07_ExitRacingDatagram() {
+	io := &zzUDPIO{allow: map[string]bool{"t:1": true}, in: make(chan *protocol.UDPMessage, 8)}
+	log := &zzUDPLog{}
+	m := newUDPSessionManager(io, log, zzTimeout)
+	done := make(chan struct{})
+	go func() {
+		m.Run()
+		close(done)
+	}()
+	io.curSess = 1
+	io.in <- zzDgram(1, "t:1", 0)
+	verifQuiesce()
+	verifAssert(len(io.conns) == 1 && len(io.conns[0].writes) == 1, "the first datagram opens the session's socket and leaves through it")
+	// the race: a datagram is handed to the receive loop and the socket fails
+	io.in <- zzDgram(1, "t:1", 1)
+	close(io.conns[0].replies)
+	verifQuiesce()
+	verifAssert(io.conns[0].closes == 1, "the failed socket is closed once")
+	later := 1 + verifChoice("later", 2)
+	for k := 0; k < later; k++ {
+		total := 0
+		for _, c := range io.conns {
+			total += len(c.writes)
+		}
+		io.in <- zzDgram(1, "t:1", byte(2+k))
+		verifQuiesce()
+		after, open := 0, 0
+		for _, c := range io.conns {
+			after += len(c.writes)
+			if c.closes == 0 {
+				open++
+			}
+		}
+		verifAssert(after == total+1, "a later datagram with the same ID leaves through a socket (it is not lost to the dead session)")
+		verifAssert(open == 1 && m.Count() == 1, "on one live session with one open socket")
+	}
+	verifCover("later-datagrams-forwarded")
+	close(io.in)
+	left := verifQuiesce()
+	<-done
+	for _, c := range io.conns {
+		verifAssert(c.closes == 1, "every socket that was opened is closed exactly once")
+	}
+	verifAssert(left == 0 && m.Count() == 0, "nothing is left behind")
+}
